@@ -46,6 +46,12 @@ def plan(tier, seed):
     nw4 = 2 if tier == 'quick' else 8
     for i in range(nw4):
         shards.append({'name': 'w4_%d' % i, 'kind': 'w4', 'combos': w4[i::nw4], 'seed': seed * 1000 + 60 + i})
+    for i in range(2):
+        shards.append({'name': 'w5_%d' % i, 'kind': 'w5', 'N': 7 if tier == 'quick' else 10,
+                       'n': 24 if tier == 'quick' else 250, 'seed': seed * 1000 + 70 + i})
+    shards.append({'name': 'ambig', 'kind': 'ambig', 'n': 60 if tier == 'quick' else 800, 'seed': seed * 1000 + 73})
+    shards.append({'name': 'large', 'kind': 'large', 'sizes': [1100, 2300] if tier == 'quick' else
+                   [600, 1100, 2300, 4100, 9000]})
     S = 4 if tier == 'quick' else 5
     shards.append({'name': 'w2_a', 'kind': 'w2', 'S': S, 'part': 0, 'parts': 2})
     shards.append({'name': 'w2_b', 'kind': 'w2', 'S': S, 'part': 1, 'parts': 2})
@@ -97,7 +103,8 @@ def run_case(case, rec, ssj=None, views=None):
         rec.count('calls_raised')
         rec.add('raised', '%s: %s' % (type(e).__name__, str(e)[:80]))
         return None
-    key = ('w2', case['S']) if (views is not None and case['gen'] == 'w2') else None
+    key = ('w2', case['S']) if (views is not None and case['gen'] == 'w2') else \
+        (('w5', case['N']) if (views is not None and case['gen'] == 'w5') else None)
     view = views.get(key) if key else None
     if view is None:
         view = oracle.TableView(call)
@@ -152,6 +159,42 @@ def run_shard(shard, rec):
         rec.sample({'workload': 'NM', 'measure': m, 'threshold': t, 'N': shard['N'],
                     'note': 'per (a,b): one exactly qualifying pair and one pair one token short'},
                    limit=1)
+    elif kind == 'ambig':
+        for i in range(shard['n']):
+            case = {'gen': 'ambig', 'seed': shard['seed'] * 100000 + i}
+            st = run_case(case, rec, ssj)
+            rec.case(sig=('ambig', case['seed']), nontrivial=bool(st and st.get('scores_checked')))
+            rec.count('ambiguous_token_set_cases')
+        rec.sample({'workload': 'AMBIG', 'note': 'comma tokenizer, tokens containing blanks: different token '
+                    'sets that coincide once joined / sorted / stripped; thresholds 1.0 and 0.9999'}, limit=1)
+    elif kind == 'w5':
+        rng = random.Random(shard['seed'])
+        for m in c01.MEASURES4:
+            ths = gen.near_score_thresholds(m, shard['N'], rng, shard['n'])
+            for i, t in enumerate(ths):
+                case = {'gen': 'w5', 'N': shard['N'], 'measure': m, 'threshold': t,
+                        'comp_op': ('>=', '>', '>=', '=')[i % 4], 'out_sim_score': i % 3 != 0,
+                        'n_jobs': 1 if i % 5 else 2}
+                st = run_case(case, rec, ssj, views)
+                rec.case(sig=('w5', m, t, case['comp_op'], case['out_sim_score']),
+                         nontrivial=bool(st and st.get('output_rows')))
+                rec.count('w5_cases')
+        rec.sample({'workload': 'W5', 'N': shard['N'], 'note': 'every (a,b,o) up to N with the shared tokens '
+                    'rare (inside both prefixes); thresholds at / a hair above / below attained scores; '
+                    'a third of the calls without the score column'}, limit=1)
+    elif kind == 'large':
+        for x, n in enumerate(shard['sizes']):
+            for y, (m, t) in enumerate([('JACCARD', 0.8), ('JACCARD', 0.6), ('COSINE', 0.85), ('DICE', 0.9),
+                                        ('OVERLAP_COEFFICIENT', 0.9), ('OVERLAP', 3)]):
+                if rec.tier == 'quick' and (x + y) % 2 and y > 1:
+                    continue
+                case = {'gen': 'large', 'n': n, 'measure': m, 'threshold': t, 'seed': 91 + 13 * x + y,
+                        'n_jobs': 1 if (x + y) % 3 else 2}
+                st = run_case(case, rec, ssj)
+                rec.case(sig=('large', n, m, t), nontrivial=bool(st and st.get('scores_checked')))
+                rec.count('large_table_cases')
+        rec.sample({'workload': 'LARGE', 'sizes': shard['sizes'], 'note': 'n-row tables of filler rows '
+                    'with planted matching pairs and near misses (rows beyond 1000 / 2048)'}, limit=1)
     elif kind == 'w4':
         for i, (m, t, op) in enumerate(shard['combos']):
             case = {'gen': 'w4', 'measure': m, 'threshold': t, 'comp_op': op,
